@@ -14,12 +14,13 @@ import (
 	"regexp"
 	"strings"
 	"testing"
+	"time"
 
 	"pgregory.net/rapid"
 )
 
 func init() {
-	monitors["C03"] = &monitor{scenarios: c03Scenarios, run: c03Run}
+	monitors["C03"] = &monitor{scenarios: c03Scenarios, run: c03Run, scenarioLimit: 60 * time.Second}
 }
 
 func c03Scenarios(cfg runCfg) []Scenario {
